@@ -2,7 +2,11 @@ import Sozu.Tls.Lemmas
 /-
 C17 — TLS always serves a loaded certificate that covers the requested name.
 
-Only the property theorems `C17_*` and their non-vacuity examples live here.
+Only the property statements `C17_*` and their non-vacuity examples live here;
+every proof is in `Lemmas.lean` (part 3 and 4, lemma `p_x` for theorem `C17_x`),
+and so are the notions the statements use: `Agree`, `Stored`, `GoodHost`,
+`wildOf`, `Covers`, `CertCovers`, `spec`, `RankLe`, `ResolveSpec`, `Covered`,
+`TrieCovered`, `SniCovers`, `AddsFp`, `prepare`.
 
 Scope of the quantifiers:
 * histories: *all* op sequences. The names of an added certificate go through
@@ -23,376 +27,185 @@ set_option linter.unusedVariables false
 namespace Sozu.Tls
 open Sozu Sozu.Trie
 
-/-- a certificate name covers the server name `N` -/
-def Covers (name N : Bytes) : Prop := name = N ∨ name = wildOf N
-
-/-- the certificate covers the server name `N` -/
-def CertCovers (c : Cert) (N : Bytes) : Prop := ∃ name ∈ c.names, Covers name N
-
 -- ------------------------------------------------------------ invariant --
 
 /-- After every history of add / remove / replace (re-adds, refused names,
     idempotent replace, absent or unparsable old fingerprint, failing PEM) the
     trie, the per-name index and the store agree (`Agree`). -/
-theorem C17_agree_invariant (ops : List Op) : Agree (run init ops) :=
-  agree_run ops init agree_init
+theorem C17_agree_invariant (ops : List Op) : Agree (run init ops) := p_agree_invariant ops
 
 /-- no history makes the resolver panic -/
-theorem C17_no_panic (ops : List Op) : (run init ops).dead = false :=
-  (C17_agree_invariant ops).a.alive
+theorem C17_no_panic (ops : List Op) : (run init ops).dead = false := p_no_panic ops
 
 /-- a certificate whose names `try_from` refuses leaves the resolver unchanged
     (add and replace alike; the old certificate of the replace stays) -/
 theorem C17_rejected_add_unchanged (ops : List Op) (c : Cert) (old : Option Fp)
     (h : prepare c = none) :
     step (run init ops) (.add c) = (run init ops, .err) ∧
-    step (run init ops) (.replace old c) = (run init ops, .err) := by
-  have hd := C17_no_panic ops
-  simp [step, hd, h]
+    step (run init ops) (.replace old c) = (run init ops, .err) :=
+  p_rejected_add_unchanged ops c old h
 
 -- ------------------------------------------------------------- resolve --
 
-/-- state-level form of `C17_resolve_sound` -/
-theorem resolve_sound_of_agree (re : Bytes → Bytes → Bool) {s : State} (h : Agree s) {N : Bytes}
-    (hN : GoodHost N) {fp : Fp} (hr : resolve re s (some N) = .cert fp) :
-    ∃ c, Stored s c ∧ c.fp = fp ∧
-      ((N ∈ c.names ∧ ∀ c', Stored s c' → N ∈ c'.names → c'.exp ≤ c.exp) ∨
-       ((∀ c', Stored s c' → N ∉ c'.names) ∧ wildOf N ∈ c.names ∧
-          ∀ c', Stored s c' → wildOf N ∈ c'.names → c'.exp ≤ c.exp)) := by
-  simp only [resolve, lookup_agree re h hN] at hr
-  cases h1 : (idxGet s N).getLast? with
-  | some p =>
-    obtain ⟨c, hs, hfp, hn, _, hmax⟩ := last_is_longest h h1
-    simp only [lastKV, h1, Option.map_some, Option.orElse_some] at hr
-    split at hr
-    · cases hr; exact ⟨c, hs, hfp, Or.inl ⟨hn, hmax⟩⟩
-    · cases hr
-  | none =>
-    have hno := (idx_nil_iff h N).mp h1
-    simp only [lastKV, h1, Option.map_none, Option.orElse_none] at hr
-    cases h2 : (idxGet s (wildOf N)).getLast? with
-    | some p =>
-      obtain ⟨c, hs, hfp, hn, _, hmax⟩ := last_is_longest h h2
-      simp only [h2, Option.map_some] at hr
-      split at hr
-      · cases hr; exact ⟨c, hs, hfp, Or.inr ⟨hno, hn, hmax⟩⟩
-      · cases hr
-    | none => simp [h2] at hr
+/-- **The selection is the argmax of a stated order over the loaded set.** For
+    every history and server name `N`, `resolve` answers
+    * a certificate `fp`: then a stored certificate `c` with that fingerprint
+      covers `N` (`0 < spec c N`) and is maximal among *all* stored certificates
+      for the order `RankLe N` (more specific name first — exact 2, wildcard 1,
+      none 0 — then later expiration);
+    * the default certificate: then no stored certificate covers `N`;
+    * never `None`.
+    The three cases are exclusive and exhaustive, so this determines the answer
+    up to ties (`C17_resolve_spec_unique`). -/
+theorem C17_resolve_spec (re : Bytes → Bytes → Bool) (ops : List Op) (N : Bytes) (hN : GoodHost N) :
+    ResolveSpec (run init ops) N (resolve re (run init ops) (some N)) :=
+  p_resolve_spec re ops N hN
 
-/-- **Soundness of the served certificate.** For every history and every server
-    name `N`: if `resolve` hands rustls the certificate with fingerprint `fp`
-    then a certificate `c` with that fingerprint is currently stored and
-    * either `N` itself is one of its names, and no stored certificate naming
-      `N` expires later (exact name, longest-lived among equals),
-    * or no stored certificate names `N` exactly, the wildcard `wildOf N` is one
-      of its names, and no stored certificate carrying that wildcard expires
-      later (wildcard only when there is no exact name). -/
+/-- the specification never allows both a certificate and the default, and two
+    certificates it allows have the same specificity and the same expiration -/
+theorem C17_resolve_spec_unique (s : State) (N : Bytes) (fp1 fp2 : Fp) :
+    (ResolveSpec s N (.cert fp1) → ¬ ResolveSpec s N .default) ∧
+    (ResolveSpec s N (.cert fp1) → ResolveSpec s N (.cert fp2) →
+      ∃ c1 c2, Stored s c1 ∧ Stored s c2 ∧ c1.fp = fp1 ∧ c2.fp = fp2 ∧
+        spec c1 N = spec c2 N ∧ c1.exp = c2.exp) :=
+  p_resolve_spec_unique s N fp1 fp2
+
+/-- **Soundness of the served certificate** (the same, spelled out): stored,
+    covers `N`, exact name before wildcard, longest-lived among equals. -/
 theorem C17_resolve_sound (re : Bytes → Bytes → Bool) (ops : List Op)
     (N : Bytes) (hN : GoodHost N) (fp : Fp) (hr : resolve re (run init ops) (some N) = .cert fp) :
     ∃ c, Stored (run init ops) c ∧ c.fp = fp ∧ CertCovers c N ∧
       ((N ∈ c.names ∧ ∀ c', Stored (run init ops) c' → N ∈ c'.names → c'.exp ≤ c.exp) ∨
        ((∀ c', Stored (run init ops) c' → N ∉ c'.names) ∧ wildOf N ∈ c.names ∧
-          ∀ c', Stored (run init ops) c' → wildOf N ∈ c'.names → c'.exp ≤ c.exp)) := by
-  obtain ⟨c, hs, hfp, hd⟩ := resolve_sound_of_agree re (C17_agree_invariant ops) hN hr
-  refine ⟨c, hs, hfp, ?_, hd⟩
-  rcases hd with ⟨hn, _⟩ | ⟨_, hn, _⟩
-  · exact ⟨N, hn, Or.inl rfl⟩
-  · exact ⟨wildOf N, hn, Or.inr rfl⟩
+          ∀ c', Stored (run init ops) c' → wildOf N ∈ c'.names → c'.exp ≤ c.exp)) :=
+  p_resolve_sound re ops N hN fp hr
 
-/-- `resolve` never answers `None` for a server name: the trie never names a
-    fingerprint that is not stored (no dangling fingerprint). -/
+/-- `resolve` never answers `None` for a server name (no dangling fingerprint) -/
 theorem C17_resolve_never_dangling (re : Bytes → Bytes → Bool) (ops : List Op)
-    (N : Bytes) (hN : GoodHost N) :
-    resolve re (run init ops) (some N) ≠ .nothing := by
-  have h := C17_agree_invariant ops
-  intro hr
-  simp only [resolve, lookup_agree re h hN] at hr
-  cases h1 : (idxGet (run init ops) N).getLast? with
-  | some p =>
-    obtain ⟨c, hs, hfp, _⟩ := last_is_longest h h1
-    simp only [lastKV, h1, Option.map_some, Option.orElse_some] at hr
-    have : KMap.contains (run init ops).certs p.1 = true := by
-      rw [← hfp]; simp [KMap.contains, show KMap.get? (run init ops).certs c.fp = some c from hs]
-    simp [this] at hr
-  | none =>
-    simp only [lastKV, h1, Option.map_none, Option.orElse_none] at hr
-    cases h2 : (idxGet (run init ops) (wildOf N)).getLast? with
-    | some p =>
-      obtain ⟨c, hs, hfp, _⟩ := last_is_longest h h2
-      simp only [h2, Option.map_some] at hr
-      have : KMap.contains (run init ops).certs p.1 = true := by
-        rw [← hfp]; simp [KMap.contains, show KMap.get? (run init ops).certs c.fp = some c from hs]
-      simp [this] at hr
-    | none => simp [h2] at hr
+    (N : Bytes) (hN : GoodHost N) : resolve re (run init ops) (some N) ≠ .nothing :=
+  p_resolve_never_dangling re ops N hN
 
-/-- **Default certificate only when nothing covers.** `resolve` falls back to
-    `DEFAULT_CERTIFICATE` exactly when no stored certificate covers `N`. -/
+/-- **Default certificate only when nothing covers.** -/
 theorem C17_default_only_if_uncovered (re : Bytes → Bytes → Bool) (ops : List Op)
     (N : Bytes) (hN : GoodHost N) :
     resolve re (run init ops) (some N) = .default ↔
-      ¬ ∃ c, Stored (run init ops) c ∧ CertCovers c N := by
-  have h := C17_agree_invariant ops
-  constructor
-  · intro hr
-    simp only [resolve, lookup_agree re h hN] at hr
-    rintro ⟨c, hs, name, hn, hc⟩
-    cases h1 : (idxGet (run init ops) N).getLast? with
-    | some p =>
-      simp only [lastKV, h1, Option.map_some, Option.orElse_some] at hr
-      split at hr <;> cases hr
-    | none =>
-      simp only [lastKV, h1, Option.map_none, Option.orElse_none] at hr
-      cases h2 : (idxGet (run init ops) (wildOf N)).getLast? with
-      | some p =>
-        simp only [h2, Option.map_some] at hr
-        split at hr <;> cases hr
-      | none =>
-        rcases hc with rfl | rfl
-        · exact (idx_nil_iff h _).mp h1 c hs hn
-        · exact (idx_nil_iff h _).mp h2 c hs hn
-  · intro hno
-    cases hr : resolve re (run init ops) (some N) with
-    | default => rfl
-    | nothing => exact absurd hr (C17_resolve_never_dangling re ops N hN)
-    | cert fp =>
-      obtain ⟨c, hs, _, hc, _⟩ := C17_resolve_sound re ops N hN fp hr
-      exact absurd ⟨c, hs, hc⟩ hno
+      ¬ ∃ c, Stored (run init ops) c ∧ CertCovers c N :=
+  p_default_only_if_uncovered re ops N hN
 
 -- -------------------------------------------------------------- removal --
-
-/-- `resolve` only ever answers with a fingerprint that is in the store -/
-theorem resolve_cert_stored (re : Bytes → Bytes → Bool) (s : State) (N : Bytes) (fp : Fp)
-    (hnone : KMap.get? s.certs fp = none) : resolve re s (some N) ≠ .cert fp := by
-  intro hr
-  simp only [resolve] at hr
-  split at hr
-  · next kv _ =>
-    split at hr
-    · next hc =>
-      cases hr
-      simp [KMap.contains, hnone] at hc
-    · cases hr
-  · cases hr
 
 /-- **A removed certificate is never served again**: after `remove fp`, and for
     as long as no later op loads that fingerprint again, no server name at all
     (no restriction on `N`) is answered with it. -/
 theorem C17_removed_never_served (re : Bytes → Bytes → Bool) (ops1 ops2 : List Op) (fp : Fp)
     (hn : ∀ op ∈ ops2, ¬ AddsFp fp op) (N : Bytes) :
-    resolve re (run init (ops1 ++ [Op.remove fp] ++ ops2)) (some N) ≠ .cert fp := by
-  have ha1 := C17_agree_invariant ops1
-  have hrm : run init (ops1 ++ [Op.remove fp]) = remove (run init ops1) fp := by
-    rw [run_append]
-    simp only [run, List.foldl_cons, List.foldl_nil]
-    exact step_eq_apply ha1 (.remove fp)
-  have ha2 : Agree (remove (run init ops1) fp) := agree_remove ha1 fp
-  have hnone : KMap.get? (run init (ops1 ++ [Op.remove fp] ++ ops2)).certs fp = none := by
-    rw [run_append, hrm]
-    exact not_stored_run fp ops2 _ ha2 (by rw [get_certs_remove]; simp) hn
-  exact resolve_cert_stored re _ N fp hnone
+    resolve re (run init (ops1 ++ [Op.remove fp] ++ ops2)) (some N) ≠ .cert fp :=
+  p_removed_never_served re ops1 ops2 fp hn N
 
 -- ------------------------------------------------------------- replace --
 
-/-- a handshake for `N` would be answered with a stored certificate -/
-def Covered (re : Bytes → Bytes → Bool) (s : State) (N : Bytes) : Prop :=
-  ∃ fp, resolve re s (some N) = .cert fp
-
-theorem covered_iff_stored (re : Bytes → Bytes → Bool) {s : State} (h : Agree s) {N : Bytes}
-    (hN : GoodHost N) : Covered re s N ↔ TrieCovered re s N := by
-  unfold Covered TrieCovered resolve
-  constructor
-  · rintro ⟨fp, hr⟩
-    cases hl : domainLookup re s N true with
-    | none => simp [hl] at hr
-    | some kv => rfl
-  · intro hc
-    cases hl : domainLookup re s N true with
-    | none => simp [hl] at hc
-    | some kv =>
-      have hl' := hl
-      rw [lookup_agree re h hN] at hl'
-      have hst : KMap.contains s.certs kv.2 = true := by
-        cases h1 : (idxGet s N).getLast? with
-        | some p =>
-          obtain ⟨c, hs, hfp, _⟩ := last_is_longest h h1
-          simp only [lastKV, h1, Option.map_some, Option.orElse_some, Option.some.injEq] at hl'
-          rw [← hl', ← hfp]; simp [KMap.contains, show KMap.get? s.certs c.fp = some c from hs]
-        | none =>
-          simp only [lastKV, h1, Option.map_none, Option.orElse_none] at hl'
-          cases h2 : (idxGet s (wildOf N)).getLast? with
-          | some p =>
-            obtain ⟨c, hs, hfp, _⟩ := last_is_longest h h2
-            simp only [h2, Option.map_some, Option.some.injEq] at hl'
-            rw [← hl', ← hfp]; simp [KMap.contains, show KMap.get? s.certs c.fp = some c from hs]
-          | none => simp [h2] at hl'
-      exact ⟨kv.2, by simp [hl, hst]⟩
-
-/-- **Replacing never opens a gap (between the two steps).** `replace` is
-    `add new` then `remove old`; in the state between the two a server name that
-    was answered with a stored certificate before still is (so a name covered
-    before and after is covered throughout). -/
+/-- **Replacing never opens a gap (between the two steps).** In the state
+    between `add new` and `remove old` a server name that was answered with a
+    stored certificate before still is. -/
 theorem C17_replace_no_gap (re : Bytes → Bytes → Bool) (ops : List Op)
     (c0 c : Cert) (hp : prepare c0 = some c) (N : Bytes) (hN : GoodHost N)
-    (hbefore : Covered re (run init ops) N) : Covered re (add (run init ops) c) N := by
-  have hc := (prepare_good hp).2.2.2
-  have h := C17_agree_invariant ops
-  have h' := agree_add h c hc
-  rw [covered_iff_stored re h' hN]
-  rw [covered_iff_stored re h hN] at hbefore
-  exact addTrace_covered re h c hc hN hbefore _ (by
-    unfold addTrace
-    split
-    · next hcon => simp [add, hcon]
-    · simp)
+    (hbefore : Covered re (run init ops) N) : Covered re (add (run init ops) c) N :=
+  p_replace_no_gap re ops c0 c hp N hN hbefore
 
-/-- **Replacing never opens a gap (name by name).** In *every* state the
-    resolver goes through inside one `replace_certificate` — after each name of
-    the `add_certificate` loop, after the store insert, after each name of the
-    `remove_certificate` loop — the trie still finds a fingerprint for every
-    server name it found one for before the replace and finds one for after it. -/
+/-- **Replacing never opens a gap (name by name).** In *every* state the resolver
+    goes through inside one `replace_certificate` the trie still finds a
+    fingerprint for every server name covered before and after the replace. -/
 theorem C17_replace_no_gap_stepwise (re : Bytes → Bytes → Bool) (ops : List Op)
     (old : Option Fp) (c0 c : Cert) (hp : prepare c0 = some c)
     (N : Bytes) (hN : GoodHost N)
     (hbefore : TrieCovered re (run init ops) N)
     (hafter : TrieCovered re (replace (run init ops) old c) N) :
-    ∀ s' ∈ replaceTrace (run init ops) old c, TrieCovered re s' N := by
-  have hc := (prepare_good hp).2.2.2
-  have h := C17_agree_invariant ops
-  intro s' hs'
-  unfold replaceTrace at hs'
-  unfold replace at hafter
-  split at hs'
-  · simp at hs'; subst hs'; exact hbefore
-  · next hne =>
-    simp only [hne, if_false] at hafter
-    cases old with
-    | none => exact addTrace_covered re h c hc hN hbefore s' hs'
-    | some o =>
-      simp only [] at hs' hafter
-      rcases List.mem_append.mp hs' with hm | hm
-      · exact addTrace_covered re h c hc hN hbefore s' hm
-      · exact removeTrace_covered re (agree_add h c hc) o hN hafter s' hm
+    ∀ s' ∈ replaceTrace (run init ops) old c, TrieCovered re s' N :=
+  p_replace_no_gap_stepwise re ops old c0 c hp N hN hbefore hafter
+
+/-- **… and what it finds is right, in every internal state**: under a key that
+    covers the name (`N` or `wildOf N`), the fingerprint of the certificate being
+    added or of a certificate that is in the store at that very moment (never a
+    removed or unknown one). -/
+theorem C17_replace_no_gap_sound (re : Bytes → Bytes → Bool) (ops : List Op)
+    (old : Option Fp) (c0 c : Cert) (hp : prepare c0 = some c)
+    (N : Bytes) (hN : GoodHost N)
+    (hbefore : TrieCovered re (run init ops) N)
+    (hafter : TrieCovered re (replace (run init ops) old c) N) :
+    ∀ s' ∈ replaceTrace (run init ops) old c,
+      ∃ kv, domainLookup re s' N true = some kv ∧ Covers kv.1 N ∧
+        (kv.2 = c.fp ∨ KMap.contains s'.certs kv.2 = true) :=
+  p_replace_no_gap_sound re ops old c0 c hp N hN hbefore hafter
 
 -- ---------------------------------------------------------- strict SNI --
 
-/-- **The certificate-name predicate is exactly RFC 6125 coverage.**
-    `authority_matched_cert_name` accepts iff the request host (port stripped,
-    one trailing dot stripped) is non-empty and some name of the snapshot covers
-    it: equal up to ASCII case when the name has no `*`, or the name is `*.` + a
-    `*`-free suffix and the host is exactly one non-empty label + `.` + that
-    suffix (no apex match, no deeper label, no embedded wildcard). -/
+/-- **The certificate-name predicate is exactly RFC 6125 coverage** (`SniCovers`):
+    single non-empty left-most label, no apex, no embedded `*`, port and one
+    trailing dot stripped, ASCII case folded. -/
 theorem C17_strict_sni_iff (authority : Bytes) (names : List Bytes) :
     (matchedCertName authority names).isSome = true ↔
-      hostOf authority ≠ [] ∧ ∃ e ∈ names, SniCovers e (hostOf authority) := by
-  unfold matchedCertName
-  simp only []
-  by_cases he : hostOf authority = []
-  · simp [he]
-  · have : (hostOf authority).isEmpty = false := by
-      cases h : hostOf authority with
-      | nil => exact absurd h he
-      | cons _ _ => rfl
-    simp only [this, Bool.false_eq_true, if_false, List.find?_isSome, ne_eq, he, not_false_eq_true,
-      true_and]
-    constructor
-    · rintro ⟨e, hm, hx⟩; exact ⟨e, hm, (entryMatches_iff _ _).mp hx⟩
-    · rintro ⟨e, hm, hx⟩; exact ⟨e, hm, (entryMatches_iff _ _).mpr hx⟩
+      hostOf authority ≠ [] ∧ ∃ e ∈ names, SniCovers e (hostOf authority) :=
+  p_strict_sni_iff authority names
 
 /-- a wildcard name never covers its own apex -/
 theorem C17_strict_sni_no_apex (suf h : Bytes) (hh : lower h = lower suf) :
-    ¬ SniCovers (STAR :: DOT :: suf) h := by
-  rintro (⟨h1, _⟩ | ⟨suf', lm, rest, h1, _, h3, _, _, h6⟩)
-  · exact h1 (by simp)
-  · cases h1
-    have l1 := congrArg List.length hh
-    have l2 := congrArg List.length h6
-    simp only [lower_length] at l1 l2
-    rw [h3] at l1
-    simp at l1
-    omega
+    ¬ SniCovers (STAR :: DOT :: suf) h := p_strict_sni_no_apex suf h hh
 
-/-- a wildcard name covers exactly one extra label: the host has one more dot
-    than the suffix (no match across dots, no deeper sub-domain) -/
+/-- a wildcard name covers exactly one extra label -/
 theorem C17_strict_sni_one_label (suf h : Bytes) (hc : SniCovers (STAR :: DOT :: suf) h) :
-    h.count DOT = suf.count DOT + 1 := by
-  rcases hc with ⟨h1, _⟩ | ⟨suf', lm, rest, h1, _, h3, _, h5, h6⟩
-  · exact absurd (by simp) h1
-  · cases h1
-    have hc := congrArg (List.count DOT) h6
-    rw [count_dot_lower, count_dot_lower] at hc
-    rw [h3, List.count_append, List.count_cons, List.count_eq_zero_of_not_mem h5, hc]
-    simp
+    h.count DOT = suf.count DOT + 1 := p_strict_sni_one_label suf h hc
 
 /-- the name returned is one of the snapshot and covers the host -/
 theorem C17_strict_sni_matched (authority : Bytes) (names : List Bytes) (e : Bytes)
-    (h : matchedCertName authority names = some e) : e ∈ names ∧ SniCovers e (hostOf authority) := by
-  unfold matchedCertName at h
-  simp only [] at h
-  split at h
-  · cases h
-  · exact ⟨List.mem_of_find?_eq_some h, (entryMatches_iff _ _).mp (List.find?_some h)⟩
+    (h : matchedCertName authority names = some e) : e ∈ names ∧ SniCovers e (hostOf authority) :=
+  p_strict_sni_matched authority names e h
 
-/-- the legacy predicate: the host (port stripped) equals the SNI up to ASCII
-    case of the authority -/
+/-- the legacy predicate: host (port stripped) = SNI up to ASCII case of the authority -/
 theorem C17_strict_sni_exact (authority sni : Bytes) :
     matchesSni authority sni = true ↔ lower (stripPort authority) = sni :=
-  matchesSni_iff authority sni
+  p_strict_sni_exact authority sni
 
-/-- **Strict SNI binding on a connection that was served a loaded certificate.**
-    For every history: when the handshake for SNI `N` found a loaded certificate
-    (the snapshot is `some`), a request is let through to routing only if its
-    authority is covered (RFC 6125, `SniCovers`) by a name of *the certificate
-    that `resolve` served for `N`*, normalised as `upgrade_handshake` does.
-    `_partial`: the hypothesis `snapshot … = some ns` excludes the connections
-    that were served the default certificate, see the counterexample below. -/
+/-- **The strict-SNI gate composed with `resolve`, for every history, without
+    any hypothesis on what was served.** A request let through to routing on a
+    connection with SNI `N` either carries an authority covered (RFC 6125) by a
+    name of exactly the certificate `resolve` served for `N`, or — the only
+    other case — no loaded certificate covers `N`, the default certificate was
+    served and the authority equals the SNI (known finding F79, see
+    `C17_strict_sni_counterexample`). -/
+theorem C17_strict_sni (re : Bytes → Bytes → Bool) (ops : List Op) (N : Bytes) (hN : GoodHost N)
+    (authority : Bytes)
+    (hallow : routeAllowed true (some N) (snapshot re (run init ops) (some N)) authority = true) :
+    (∃ c, Stored (run init ops) c ∧ resolve re (run init ops) (some N) = .cert c.fp ∧ CertCovers c N ∧
+        ∃ name ∈ c.names, SniCovers (normName name) (hostOf authority)) ∨
+    (resolve re (run init ops) (some N) = .default ∧
+        (¬ ∃ c, Stored (run init ops) c ∧ CertCovers c N) ∧ lower (stripPort authority) = N) :=
+  p_strict_sni re ops N hN authority hallow
+
+/-- the property as stated ("routed ⇒ covered by the served certificate"), under
+    the hypothesis that a loaded certificate was served (`_partial`: excludes the
+    default-certificate connections of the counterexample below) -/
 theorem C17_strict_sni_partial (re : Bytes → Bytes → Bool) (ops : List Op)
     (N : Bytes) (hN : GoodHost N) (ns : List Bytes)
     (hsnap : snapshot re (run init ops) (some N) = some ns) (authority : Bytes)
     (hallow : routeAllowed true (some N) (some ns) authority = true) :
     ∃ c, Stored (run init ops) c ∧ resolve re (run init ops) (some N) = .cert c.fp ∧ CertCovers c N ∧
-      ∃ name ∈ c.names, SniCovers (normName name) (hostOf authority) := by
-  have h := C17_agree_invariant ops
-  simp only [snapshot, namesForSni] at hsnap
-  cases hl : domainLookup re (run init ops) N true with
-  | none => simp [hl] at hsnap
-  | some kv =>
-    simp only [hl] at hsnap
-    cases hg : KMap.get? (run init ops).certs kv.2 with
-    | none => simp [hg] at hsnap
-    | some c =>
-      simp only [hg, Option.map_some] at hsnap
-      split at hsnap
-      · cases hsnap
-      · cases hsnap
-        have hk : c.fp = kv.2 := h.keyed kv.2 c hg
-        have hres : resolve re (run init ops) (some N) = .cert c.fp := by
-          simp [resolve, hl, KMap.contains, hg, hk]
-        obtain ⟨c2, hs2, hfp2, hcov, _⟩ := C17_resolve_sound re ops N hN c.fp hres
-        have hc2 : c2 = c := by
-          have : KMap.get? (run init ops).certs c2.fp = some c2 := hs2
-          rw [hfp2, hk, hg] at this; cases this; rfl
-        subst hc2
-        refine ⟨c2, hs2, hres, hcov, ?_⟩
-        simp only [routeAllowed, Bool.not_true, Bool.false_eq_true, if_false] at hallow
-        obtain ⟨_, e, he, hcv⟩ := (C17_strict_sni_iff authority _).mp hallow
-        obtain ⟨name, hname, rfl⟩ := List.mem_map.mp he
-        exact ⟨name, hname, hcv⟩
+      ∃ name ∈ c.names, SniCovers (normName name) (hostOf authority) :=
+  p_strict_sni_partial re ops N hN ns hsnap authority hallow
 
-/-- on a connection that was served the default certificate (no loaded
-    certificate covers the SNI) the gate falls back to "authority = SNI" -/
+/-- on a default-certificate connection the gate is "authority = SNI" -/
 theorem C17_strict_sni_default_path (sni authority : Bytes) :
-    routeAllowed true (some sni) none authority = true ↔ lower (stripPort authority) = sni := by
-  simp [routeAllowed, matchesSni_iff]
+    routeAllowed true (some sni) none authority = true ↔ lower (stripPort authority) = sni :=
+  p_strict_sni_default_path sni authority
 
-/-- **Counterexample to the full statement**: with an empty resolver a handshake
-    for `nocert.test` is served the default certificate (which does not cover
-    it), and the request with authority `nocert.test` is let through to routing. -/
+/-- **Counterexample to "routed ⇒ covered by the served certificate"** (F79): with
+    an empty resolver a handshake for `nocert.test` is served the default
+    certificate and the request with authority `nocert.test` is let through. -/
 theorem C17_strict_sni_counterexample :
     let N : Bytes := [110,111,99,101,114,116,46,116,101,115,116]
     resolve (fun _ _ => false) init (some N) = .default ∧
       snapshot (fun _ _ => false) init (some N) = none ∧
-      routeAllowed true (some N) (snapshot (fun _ _ => false) init (some N)) N = true := by
-  decide
+      routeAllowed true (some N) (snapshot (fun _ _ => false) init (some N)) N = true :=
+  p_strict_sni_counterexample
 
 -- ------------------------------------------------- regression examples --
 
@@ -464,6 +277,25 @@ example : routeAllowed true (some nTest) (snapshot noRe (run init hist) (some nT
 example : routeAllowed true (some nTest) (snapshot noRe (run init hist) (some nTest)) nDeep = false := by decide
 example : matchedCertName [102,111,111,46,101,120,97,109,112,108,101,46,111,114,103]
     [[102,42,46,101,120,97,109,112,108,101,46,111,114,103]] = none := by decide                   -- "f*.example.org"
+
+
+-- C17_resolve_spec: both kinds of maximum occur (exact over wildcard; longest-lived among equals),
+-- C17_rejected_add_unchanged / C17_no_panic: a refused certificate,
+-- C17_replace_no_gap_sound: the six internal states of a replace,
+-- C17_strict_sni: both disjuncts occur.
+example : spec cWww nWww = 2 ∧ spec cWild nWww = 1 ∧ spec cWild nApex = 0 := by decide
+example : RankLe nWww cWild cWww ∧ RankLe nWww cWww cWww2 ∧ ¬ RankLe nWww cWww2 cWww := by decide
+example : prepare ⟨9, [[46,101,120,97,109,112,108,101,46,111,114,103]], 1⟩ = none := by decide
+example : ∀ s' ∈ replaceTrace (run init [.add cWild, .add cWww]) (some 1) cWildNew,
+    ∃ kv, domainLookup noRe s' nTest true = some kv ∧ kv.1 = nWild ∧
+      (kv.2 = 4 ∨ KMap.contains s'.certs kv.2 = true) := by decide
+example : routeAllowed true (some nTest) (snapshot noRe (run init hist) (some nTest)) nWww = true ∧
+    resolve noRe (run init hist) (some nTest) = .cert 4 := by decide
+example : routeAllowed true (some nDeep) (snapshot noRe (run init hist) (some nDeep)) nDeep = true ∧
+    resolve noRe (run init hist) (some nDeep) = .default := by decide
+example : AddsFp 3 (.add cWww2) ∧ ¬ AddsFp 3 (.remove 3) := by decide
+example : SniCovers nWild nTest := Or.inr ⟨nApex, [116,101,115,116], nApex, rfl, by decide, rfl, by decide, by decide, rfl⟩
+example : matchesSni [84,101,115,116,46,69,120,97,109,112,108,101,46,79,82,71,58,52,52,51] nTest = true := by decide
 
 end Examples
 
